@@ -265,6 +265,11 @@ class DataPath:
             else:
                 part_spec = i.to_spec()
             parts.append(part_spec)
+
+        if not self.is_concrete and not any(isinstance(i, dict) for i in parts):
+            # primitives alone would be rebuilt as a concrete path:
+            parts = [i.to_spec() for i in self.parts]
+
         return parts
 
     @classmethod
